@@ -139,6 +139,152 @@ Proof.
   - apply (reachable_aggs_wf cf). exists l. auto.
 Qed.
 
+(* ================================================================ every microversion *)
+(* What PUT /allocations/{k} of a client of microversion v' carries (Model/Decode.v:dec_cons): the allocations (the list
+   form below 1.12 and the dict form from 1.12 decode to the same parsed allocations), project_id / user_id from 1.8
+   (before: the configured "incomplete" project and user), consumer_generation from 1.28 - null for a new consumer - and
+   consumer_type from 1.38.  h_alloc_put reads the version in two places only (ensure_consumer): the generation check
+   from 1.28 and the consumer type from 1.38; for a NEW consumer and a null / absent generation neither can fail. *)
+Definition claim_in (c : creq) (k : Z) (op ou oty : option Z) : cons_in :=
+  mkConsIn k (map (alloc_in_of c) (providers_of c)) op ou None oty.
+(* the request of a client of microversion v' *)
+Definition cons_in_at (v' : Z) (c : creq) (k proj user ty : Z) : cons_in :=
+  claim_in c k (if 8 <=? v' then Some proj else None) (if 8 <=? v' then Some user else None)
+           (if 38 <=? v' then Some ty else None).
+Lemma cons_in_of_claim_in c k proj user ty : cons_in_of c k proj user ty = claim_in c k (Some proj) (Some user) (Some ty).
+Proof. reflexivity. Qed.
+
+Section ClaimAny.
+  Variables (cf : cfg) (d : db) (c : creq) (k v : Z) (op ou oty : option Z).
+  Hypothesis Hnew : find_cons d k = None.
+  Hypothesis Hnoalloc : forall a, In a (allocs d) -> a_cons a <> k.
+  Hypothesis Hkeys : NoDup (rr_keys (cr_rrs c)).
+  Hypothesis Hprov : forall p, In p (map rr_rp (cr_rrs c)) -> exists r, find_rp d p = Some r.
+  Hypothesis Hcap : forall l, NoDup (map areq_key l) ->
+    (forall a, In a l -> exists x, In x (cr_rrs c) /\ q_rp a = rr_rp x /\ q_rc a = rr_rc x /\ q_amt a = rr_amt x) ->
+    check_capacity d l = Ok tt.
+
+  Lemma ensure_new_any : exists d1 kobj,
+    ensure_consumer cf v d (claim_in c k op ou oty) = (d1, Some kobj) /\
+    co_uuid kobj = k /\ co_gen kobj = 0 /\ update_consumer d1 kobj = d1 /\
+    rps d1 = rps d /\ invs d1 = invs d /\ allocs d1 = allocs d /\ rcs d1 = rcs d /\
+    exists row, consumers d1 = consumers d ++ [row] /\ c_uuid row = k /\ c_gen row = 0.
+  Proof.
+    unfold ensure_consumer, claim_in. cbn [ci_proj ci_user ci_uuid ci_gen ci_type].
+    unfold find_cons in *. cbn [consumers set_users set_projects]. rewrite Hnew. rewrite andb_false_r.
+    destruct (38 <=? v); eexists; eexists; (split; [reflexivity|]);
+      cbn [co_uuid co_gen rps invs allocs rcs consumers set_consumers set_ctypes set_users set_projects];
+      (repeat split; try reflexivity);
+      try (unfold update_consumer; cbn [rq_proj co_proj rq_user co_user rq_type co_type oeqb]; rewrite !Z.eqb_refl;
+           try (destruct oty; cbn [oz oeqb]; rewrite ?Z.eqb_refl); reflexivity);
+      eexists; (split; [reflexivity|split; reflexivity]).
+  Qed.
+
+  Theorem alloc_put_204_any : status (snd (step cf d (AllocPut v (claim_in c k op ou oty)))) = 204.
+  Proof.
+    cbn [step]. unfold h_alloc_put.
+    destruct ensure_new_any as [d1 [kobj [-> [Ek [Eg [Eupd [Er [Ei [Ea [Erc [row [Ecs [Eru Erg]]]]]]]]]]]]].
+    set (ps := providers_of c). set (objs := objs_of d c k ps).
+    assert (Hps : forall p, In p ps -> exists r, find_rp d p = Some r).
+    { intros p Hp. apply Hprov. unfold ps, providers_of in Hp. apply (proj1 (dedup_In _ _)) in Hp. assumption. }
+    assert (Hobjs : alloc_objs d1 kobj (ci_allocs (claim_in c k op ou oty)) = Some objs).
+    { unfold alloc_objs, claim_in. cbn [ci_allocs]. fold ps. unfold objs. destruct ps as [|p0 ps'] eqn:Eps; cbn [map].
+      - rewrite Ek, (wipe_list_none d k Hnoalloc d1 Ea). reflexivity.
+      - change (alloc_in_of c p0 :: map (alloc_in_of c) ps') with (map (alloc_in_of c) (p0 :: ps')).
+        apply new_allocs_objs; assumption. }
+    rewrite Hobjs, Eupd.
+    assert (Hin : forall a, In a objs -> q_cons a = k /\ q_cgen a = 0 /\
+              (exists r, find_rp d (q_rp a) = Some r /\ q_rpgen a = rp_gen r) /\
+              exists x, In x (cr_rrs c) /\ q_rp a = rr_rp x /\ q_rc a = rr_rc x /\ q_amt a = rr_amt x)
+      by (intros a Ha; eapply objs_of_In; exact Ha).
+    assert (Hnd : NoDup (map areq_key objs)) by (apply objs_of_nodup; [assumption|apply NoDup_dedup]).
+    assert (Hset : exists d2, set_allocations d1 objs = Ok d2).
+    { unfold set_allocations.
+      assert (Hkeep : filter (fun a => negb (memZ (a_cons a) (map q_cons objs))) (allocs d1) = allocs d1).
+      { apply filter_all. intros a Ha. apply negb_true_iff. destruct (memZ _ _) eqn:M; [|reflexivity]. exfalso.
+        apply memZ_In in M. apply in_map_iff in M. destruct M as [o [Eo Ho]]. destruct (Hin o Ho) as [Ec _].
+        rewrite Ea in Ha. apply (Hnoalloc a Ha). congruence. }
+      rewrite Hkeep.
+      assert (Hd1 : set_allocs d1 (allocs d1) = d1) by (destruct d1; reflexivity). rewrite Hd1.
+      rewrite (check_capacity_ext d d1 objs Ei Ea Erc), (Hcap objs Hnd); [|intros a Ha; apply (Hin a Ha)]. cbn [bind].
+      set (d2 := set_allocs d1 _).
+      destruct (cas_rps_ok (first_by [] (map (fun a => (q_rp a, q_rpgen a)) objs)) d2 (first_by_nodup _ _)) as [d3 [E3 Ec3]].
+      { intros u g Hug. apply first_by_sub in Hug. destruct Hug as [Hug _]. apply in_map_iff in Hug.
+        destruct Hug as [a [[= <- <-] Ha]]. destruct (Hin a Ha) as [_ [_ [[r [F Eg']] _]]]. exists r. split; [|auto].
+        unfold find_rp, d2. cbn [rps set_allocs]. rewrite Er. exact F. }
+      rewrite E3. cbn [bind].
+      assert (Hcons3 : consumers d3 = consumers d ++ [row]) by (rewrite Ec3; unfold d2; cbn [consumers set_allocs]; exact Ecs).
+      assert (Hfb : first_by [] (map (fun a => (q_cons a, q_cgen a)) objs) = [] \/
+                    first_by [] (map (fun a => (q_cons a, q_cgen a)) objs) = [(k, 0)]).
+      { destruct objs as [|a0 objs'] eqn:Eo; [left; reflexivity|right]. cbn [map first_by memZ existsb].
+        destruct (Hin a0 (or_introl eq_refl)) as [-> [-> _]]. f_equal. apply first_by_all_seen.
+        intros pr Hpr. apply in_map_iff in Hpr. destruct Hpr as [a [<- Ha]]. cbn [fst].
+        destruct (Hin a (or_intror Ha)) as [-> _]. left. reflexivity. }
+      assert (Hcc : exists d4, cas_conss d3 (first_by [] (map (fun a => (q_cons a, q_cgen a)) objs)) = Ok d4).
+      { destruct Hfb as [->| ->]; cbn [cas_conss]; [eexists; reflexivity|].
+        unfold incr_cons_gen. rewrite Hcons3. rewrite <- Eru.
+        destruct (cas_cons_l_new (consumers d) row) as [l' ->]; [|assumption|cbn [bind]; eexists; reflexivity].
+        intros x Hx. rewrite Eru. unfold find_cons in Hnew. clear - Hnew Hx.
+        induction (consumers d) as [|y l IH]; [destruct Hx|]. cbn [find_cons_l] in Hnew.
+        destruct (c_uuid y =? k) eqn:E; [discriminate|]. destruct Hx as [<-|Hx]; [apply Z.eqb_neq; assumption|auto]. }
+      destruct Hcc as [d4 ->]. cbn [bind]. eexists. reflexivity. }
+    destruct Hset as [d2 ->]. reflexivity.
+  Qed.
+End ClaimAny.
+
+(* a returned candidate, claimed by a client of ANY microversion v' with the members that version's body carries *)
+Theorem c02_code_claimable_all_versions : forall cf v q d a s c k op ou oty v',
+  RI d -> inv_keys_nodup d -> rps_wf d -> parentless_root d -> cap_ok d -> un_rcs_nodup q ->
+  candidates v q d = COk a s -> In c a -> find_cons d k = None ->
+  status (snd (step cf d (AllocPut v' (claim_in c k op ou oty)))) = 204.
+Proof.
+  intros cf v q d a s c k op ou oty v' Hri Hkn Hwf Hpr Hcap Hrcs Hcand Hc Hnew.
+  destruct (candidates_inv v q d a s Hcand) as [Hqwf _].
+  pose proof (amounts_pos_nonneg q (query_wf_amounts_pos v q Hqwf)) as Hpos.
+  destruct (c03_sound_gen v q d a s Hwf Hpr Hcap (RI_aggs_wf d Hri) Hrcs Hcand c Hc) as [c' [Hc' Hsame]].
+  apply in_map_iff in Hc'. destruct Hc' as [c'' [<- Hc'']].
+  assert (Hin : forall x, In x (cr_rrs c) -> In x (cr_rrs c'')).
+  { intros x Hx. unfold same_creq in Hsame. apply andb_true_iff in Hsame. destruct Hsame as [Hs _].
+    apply (same_rrs_In _ _ Hs) in Hx. exact Hx. }
+  apply alloc_put_204_any; try assumption.
+  - apply ri_no_allocs_of_new; assumption.
+  - apply (code_cand_keys_nodup v q d a s c Hcand Hc).
+  - intros p Hp. apply (c02_providers_exist false v q d a s Hwf Hcand c Hc). unfold creq_providers. apply in_app_iff. left. exact Hp.
+  - intros l Hnd Hl. apply (c02_claimable_partial0 v q d c'' l (invs_wf0_of d Hri Hkn) Hpos Hc'' Hnd).
+    intros b Hb. destruct (Hl b Hb) as [x [Hx Hrest]]. exists x. split; [apply Hin; exact Hx|exact Hrest].
+Qed.
+
+Theorem c02_code_claimable_reachable_all_versions : forall cf l v q a s c k proj user ty v',
+  reqs_wf l -> un_rcs_nodup q ->
+  candidates v q (run cf db0 l) = COk a s -> In c a -> find_cons (run cf db0 l) k = None ->
+  status (snd (step cf (run cf db0 l) (AllocPut v' (cons_in_at v' c k proj user ty)))) = 204 /\
+  status (snd (step cf (run cf db0 l) (AllocPut v' (cons_in_of c k proj user ty)))) = 204 /\
+  req_wf (AllocPut v' (cons_in_at v' c k proj user ty)) = true.
+Proof.
+  intros cf l v q a s c k proj user ty v' Hl Hrcs Hcand Hc Hnew. pose proof (C09.c09_invariant cf l) as HF.
+  assert (Hri : RI (run cf db0 l)) by (apply C08.run_RI; [apply Reach.ri_db0|exact Hl]).
+  assert (Hkn : inv_keys_nodup (run cf db0 l)) by (apply (C04.c04_inv_keys_reachable cf); exists l; auto).
+  assert (Hcap : cap_ok (run cf db0 l)).
+  { apply usage_nonneg_cap_ok. apply allocs_pos_usage_nonneg. apply (C01.c01_allocs_pos_reachable cf). exists l. auto. }
+  split; [|split].
+  - unfold cons_in_at. eapply c02_code_claimable_all_versions; try eassumption;
+      [apply Forest_rps_wf; exact HF|apply Forest_parentless_root; exact HF].
+  - rewrite cons_in_of_claim_in. eapply c02_code_claimable_all_versions; try eassumption;
+      [apply Forest_rps_wf; exact HF|apply Forest_parentless_root; exact HF].
+  - pose proof (c02_code_claim_request_wf v q (run cf db0 l) a s c k proj user ty v' (Forest_rps_wf _ HF)
+                  (Forest_parentless_root _ HF) Hcap (RI_aggs_wf _ Hri) Hrcs Hcand Hc) as H. exact H.
+Qed.
+
+(* the only version-dependent refusal: from 1.28 a NON-null consumer_generation for a consumer that does not exist is a
+   generation conflict (409); below 1.28 the member does not exist and the same parsed request is accepted *)
+Example c02_claim_generation_conflict :
+  let c := mkCreq (-1) [mkRreq 3 2 2; mkRreq 4 0 1] [(1, [3]); (0, [4; 3])] in
+  let rq := mkConsIn 100 (map (alloc_in_of c) (providers_of c)) (Some 1) (Some 1) (Some 0) None in
+  map (fun v' => status (snd (step (mkCfg 0 0) sh_db (AllocPut v' rq)))) [27; 28; 39] = [204; 409; 409] /\
+  map (fun v' => status (snd (step (mkCfg 0 0) sh_db (AllocPut v' (cons_in_at v' c 100 1 1 1))))) [0; 7; 8; 11; 12; 27; 28; 37; 38; 39]
+    = [204; 204; 204; 204; 204; 204; 204; 204; 204; 204].
+Proof. split; timeout 120 vm_compute; reflexivity. Qed.
+
 (* ================================================================ non-vacuity: a candidate with a sharing provider, claimed *)
 (* the reachable table and query of Proofs/C03w.v (sharing providers 3 and 5): the first returned candidate
    {3: DISK_GB 2 (sharing provider, serving both groups), 4: VCPU 1} is claimed for the new consumer 100 at 1.39:
@@ -192,6 +338,9 @@ Print Assumptions c02_code_claimable_reachable.
 Print Assumptions c02_code_claimable_reach.
 Print Assumptions c02_code_claim_request_wf.
 Print Assumptions c02_code_claim_reachable_after.
+Print Assumptions c02_code_claimable_all_versions.
+Print Assumptions c02_code_claimable_reachable_all_versions.
+Print Assumptions c02_claim_generation_conflict.
 Print Assumptions c02_code_claimable_nonvacuous.
 Print Assumptions c02_code_claimable_instance.
 Print Assumptions c02s_caps_nonneg_not_invariant.
